@@ -47,14 +47,18 @@ CutKinds == {"reqlost", "resplost", "err255"}
 DITypes == {10, 12}
 TO2Types == {60, 62, 64, 66, 68, 70}
 NoCut == [kind |-> "none", t |-> 0]
+StoreFail(t) == [kind |-> "storefail", t |-> t]
 NoBlob == [owner |-> <<"none", 0>>]
 NoV == [guid |-> 0]
 RvLive == cred # NoCred /\ \E r \in rv : r.guid = cred.guid /\ r.live
 
 Agrees(v, c) == c # NoCred /\ v.guid = c.guid /\ v.mkey = c.mkey /\ v.macOK
 HasAgreeing(store) == \E v \in store : Agrees(v, cred)
+(* storefail: the server's voucher store refuses to insert (disk full) while the message that  *)
+(* persists a voucher is processed (DI.SetHMAC 12, TO2.Done 70): the message is answered with *)
+(* an error and nothing may have changed.                                                     *)
 ProcessedByServer(cut, t) ==    \* did the server process the message of type t of the run?
-    cut = NoCut \/ cut.t > t \/ (cut.t = t /\ cut.kind # "reqlost")
+    cut = NoCut \/ cut.t > t \/ (cut.t = t /\ cut.kind \notin {"reqlost", "storefail"})
 SeenByDevice(cut, t) == cut = NoCut \/ cut.t > t   \* did the device get the honest answer to t?
 
 Init ==
@@ -67,7 +71,7 @@ Step(a, ok, extra) == last' = [a |-> a, ok |-> ok] @@ extra /\ steps' = steps + 
 (* Device initialisation (only a device without credential is initialised). *)
 DI(cut) ==
     /\ cred = NoCred
-    /\ cut = NoCut \/ (cut.kind \in CutKinds /\ cut.t \in DITypes /\ cuts < MaxCuts)
+    /\ cut = NoCut \/ (cut.kind \in CutKinds /\ cut.t \in DITypes /\ cuts < MaxCuts) \/ (cut = StoreFail(12) /\ cuts < MaxCuts)
     /\ cuts' = IF cut = NoCut THEN cuts ELSE cuts + 1
     /\ LET g == nextGuid
            v == [guid |-> g, mkey |-> "mfg", macOK |-> TRUE, ents |-> 0, owner |-> "mfg"]
@@ -102,14 +106,16 @@ Servable(v) == v.guid = cred.guid /\ v.ents >= 1 /\ v.owner = OwnerName(ownerKey
 TO2(reuse, cut, useblob) ==
     /\ cred # NoCred
     /\ useblob => blob # NoBlob
-    /\ cut = NoCut \/ (cut.kind \in CutKinds /\ cut.t \in TO2Types /\ cuts < MaxCuts)
+    /\ cut = NoCut \/ (cut.kind \in CutKinds /\ cut.t \in TO2Types /\ cuts < MaxCuts) \/ (cut = StoreFail(70) /\ cuts < MaxCuts)
     /\ cuts' = IF cut = NoCut THEN cuts ELSE cuts + 1
     /\ IF \E v \in ownerStore : Servable(v)
        THEN LET v == CHOOSE w \in ownerStore : Servable(w)
                 g == nextGuid
                 blobOK == ~useblob \/ blob.owner = v.owner
-                ownerDone == blobOK /\ ProcessedByServer(cut, 70)    \* the owner accepted Done
-                devDone == blobOK /\ SeenByDevice(cut, 70)           \* the device saw Done2
+                \* with credential reuse nothing is inserted, so a store that refuses inserts is not noticed
+                ecut == IF cut = StoreFail(70) /\ reuse THEN NoCut ELSE cut
+                ownerDone == blobOK /\ ProcessedByServer(ecut, 70)    \* the owner accepted Done
+                devDone == blobOK /\ SeenByDevice(ecut, 70)           \* the device saw Done2
                 nv == [guid |-> g, mkey |-> OwnerName(ownerKey), macOK |-> TRUE, ents |-> 0, owner |-> OwnerName(ownerKey)]
             IN /\ ownerStore' = IF ownerDone /\ ~reuse THEN (ownerStore \ {v}) \cup {nv} ELSE ownerStore
                /\ cred' = IF devDone /\ ~reuse THEN [guid |-> g, mkey |-> OwnerName(ownerKey)] ELSE cred
@@ -191,6 +197,7 @@ Persist ==
     /\ UNCHANGED <<cred, mfgStore, ownerStore, ownerKey, nextGuid, cuts, aio, rv, blob, held>>
 
 Cuts(types) == {NoCut} \cup {[kind |-> k, t |-> t] : k \in CutKinds, t \in types}
+                \cup {StoreFail(t) : t \in types \cap {12, 70}}
 
 Next ==
     /\ steps < MaxSteps
